@@ -58,6 +58,12 @@ def n_cases(tier):
     return 900 if tier == "quick" else 12000
 
 
+# field names: plain ones; ones that look like another path once written out with "__" (also the name a de-duplicated
+# look-alike would get); and ones that are also the names of methods of the mapping / sequence classes holding them
+KEY_POOL = ["a", "b", "c", "d", "e_", "_f", "g0", "a__b", "a__0", "b__0",
+            "b__c", "a__b__c", "a__0__1", "a__b__1", "items", "keys", "values", "get", "flatten", "f"]
+
+
 def gen_leaf(rng, allowed):
     act = rng.choice(allowed)
     x = rng.random()
@@ -76,9 +82,21 @@ def gen_node(rng, depth, allowed):
     if depth <= 0 or rng.random() < 0.45:
         return gen_leaf(rng, allowed)
     many = rng.random() < 0.04
+    if depth >= 2 and rng.random() < 0.05:
+        # three fields whose paths are distinct but read the same once written out ("a__b"), next to the name a
+        # de-duplicated look-alike would be given ("a__b__1")
+        if rng.random() < 0.5:
+            trio = [["a", ["dict", [["b", gen_leaf(rng, allowed)]]]], ["a__b", gen_leaf(rng, allowed)],
+                    ["a__b__1", gen_leaf(rng, allowed)]]
+        else:
+            inner = [["b", ["dict", [["c", gen_leaf(rng, allowed)]]]], ["b__c", gen_leaf(rng, allowed)]]
+            rng.shuffle(inner)
+            trio = [["a", ["dict", inner]], ["a__b", ["dict", [["c", gen_leaf(rng, allowed)]]]]]
+        rng.shuffle(trio)
+        return ["dict", trio]
     if rng.random() < 0.5:
         n = rng.randint(1, 4) if not many else rng.randint(17, 40)
-        keys = rng.sample(["a", "b", "c", "d", "e_", "_f", "g0", "a__b", "a__0", "b__0"], n) if not many else [f"k{i}" for i in range(n)]
+        keys = rng.sample(KEY_POOL if rng.random() < 0.3 else KEY_POOL[:10], n) if not many else [f"k{i}" for i in range(n)]
         return ["dict", [[k, gen_node(rng, depth - 1 if not many else 0, allowed)] for k in keys]]
     if not many and rng.random() < 0.2:
         # a bank of identical channels described by one sub-collection that is repeated
@@ -279,7 +297,14 @@ def run_case(case):
                 order_dependent = shape_of(reg) != control
                 inherits = len(control) != len(leaves)
             elif x_ < 0.4:
-                cls = make_cls("AnnReg", (csr.Register,), annots(fields), access=access)
+                if rng.random() < 0.4:
+                    # the class statement of a derived class overrides the access mode its base class declared
+                    other_ = rng.choice([a_ for a_ in ("r", "w", "rw") if a_ != access])
+                    base_ = type("AnnBaseMode", (csr.Register,), {}, access=other_)
+                    cls = make_cls("AnnReg", (base_,), annots(fields), access=access)
+                    mon.count("derived_classes_overriding_the_access_mode_of_their_base")
+                else:
+                    cls = make_cls("AnnReg", (csr.Register,), annots(fields), access=access)
                 reg = cls()
             elif x_ < 0.5:
                 # a subclass that declares no fields of its own (only a helper method) has its parent's fields
@@ -357,7 +382,8 @@ def run_case(case):
                 for k in p:
                     if isinstance(obj, FieldActionArray):
                         obj = obj[k - len(obj)] if mode == "neg" else list(obj)[k] if mode == "iter" else obj[k]
-                    elif mode == "attr" and isinstance(k, str) and k.isidentifier() and not k.startswith("_"):
+                    elif mode == "attr" and isinstance(k, str) and k.isidentifier() and not k.startswith("_") \
+                            and not hasattr(type(obj), k):       # (a field called "items" is reached by item access only)
                         obj = getattr(obj, k)
                     else:
                         obj = obj[k]
